@@ -150,8 +150,103 @@ pub fn run(out_path: &str, seed: u64, thorough: bool) -> (u64, u64, u64) {
             }
         }
     }
+    age_grid(&mut out, &mut props, &mut fails);
     let lines = out.finish();
     (lines, props, fails)
+}
+
+/// End-to-end decision grid (C12's "decision site", C06, and the premise of C02): R -> A -> B.  R is dropped at
+/// epoch e; j rounds later A's link is overwritten (fresh timestamp) and an extra owner of A is released (fresh
+/// stamp on A); R is destructed by its deferred try_destruct at e+3 and the cascade reaches A with a merged stamp
+/// of true age 3-j.  A (and B below it) may be destructed in that same pass only if that age is at least the
+/// grace period of the collector (3 epochs); if it is 3..13 they must be.
+pub fn age_grid(out: &mut Out, props: &mut u64, fails: &mut u64) {
+    for res in 0..16usize {
+        for j in 0..=3usize {
+            for _ in 0..6 {
+                round();
+            }
+            while epoch() % 16 != res {
+                round();
+            }
+            let g = circ::cs();
+            let b = Rc::new(node(3));
+            let a = Rc::new(node(2));
+            unsafe { a.deref() }.next.store(b, SeqCst, &g);
+            let a_extra = a.clone();
+            let r = Rc::new(node(1));
+            unsafe { r.deref() }.next.store(a, SeqCst, &g);
+            drop(g);
+            // age every stamp beyond the threshold first
+            for _ in 0..4 {
+                round();
+            }
+            DROPS.store(0, SeqCst);
+            let e_drop = epoch();
+            drop(r);
+            for _ in 0..j {
+                round();
+            }
+            // touch A: new link to a fresh B' (the old B is released: one more fresh stamp), then release the extra owner
+            let e_mod = epoch();
+            {
+                let g = circ::cs();
+                let b2 = Rc::new(node(4));
+                unsafe { a_extra.deref() }.next.store(b2, SeqCst, &g);
+                drop(g);
+            }
+            drop(a_extra);
+            // run rounds until R is destructed; note what else went in the same pass
+            let mut rounds = 0;
+            let mut same_pass = 0usize;
+            let mut e_pass = 0usize;
+            let before = DROPS.load(SeqCst); // the old B may already be gone? (no: it is deferred like any root)
+            let _ = before;
+            let mut seen_r = false;
+            while rounds < 12 {
+                let d0 = DROPS.load(SeqCst);
+                round();
+                rounds += 1;
+                let d1 = DROPS.load(SeqCst);
+                // R is the first root deferred (at e_drop): it is destructed in the first round that destructs anything
+                if !seen_r && d1 > d0 {
+                    seen_r = true;
+                    same_pass = d1 - d0;
+                    e_pass = epoch();
+                    break;
+                }
+            }
+            *props += 2;
+            let age = e_pass as i64 - e_mod as i64;
+            if std::env::var("CHAIN_STATS").is_ok() {
+                eprintln!("grid res={} j={} e_drop={} e_mod={} e_pass={} age={} same_pass={}", res, j, e_drop, e_mod, e_pass, age, same_pass);
+            }
+            // in the pass that destructs R: R itself (1); A and the new B' follow only if the merged stamp is old.
+            // (the old B was released at e_mod: its own deferred try_destruct cannot run before e_mod + 3)
+            if seen_r && age < 3 && same_pass > 1 {
+                *fails += 1;
+                out.line(&format!(
+                    "PROPFAIL C12 decision site: residue {} R dropped at epoch {}, A stamped at epoch {}, cascade at epoch {}: a node whose stamp has true age {} was destructed in the same pass ({} nodes)",
+                    res, e_drop, e_mod, e_pass, age, same_pass
+                ));
+            }
+            if seen_r && (3..=13).contains(&age) && j == 0 && same_pass < 3 {
+                *fails += 1;
+                out.line(&format!(
+                    "PROPFAIL C06 decision site: residue {} cascade at epoch {} reached a node whose stamps have true age {} (unambiguously old) but deferred it ({} nodes in the pass)",
+                    res, e_pass, age, same_pass
+                ));
+            }
+            if !seen_r {
+                *fails += 1;
+                out.line(&format!("PROPFAIL C06 decision site: residue {} the root dropped at epoch {} was not destructed within 12 rounds", res, e_drop));
+            }
+            // drain
+            for _ in 0..10 {
+                round();
+            }
+        }
+    }
 }
 
 /// C07 runtime part: destroy a chain of n nodes on a thread with the given stack size (bytes); run in a
